@@ -7,34 +7,43 @@ use crate::types::Pw;
 const ENDS: [f64; 5] = [-1.0, 0.0, 1.0, 2.0, 3.0];
 const QUERIES: [f64; 9] = [f64::NEG_INFINITY, -2.0, -1.0, 0.0, 0.5, 2.0, 3.0, f64::INFINITY, f64::NAN];
 
-fn sorted_lists(max_len: usize) -> Vec<Vec<f64>> {
-    // non-decreasing sequences over ENDS of length 1..=max_len
+const ENDS_S: [f64; 4] = [-1.0, 0.0, 1.0, 2.0];
+const QUERIES_S: [f64; 7] = [f64::NEG_INFINITY, -2.0, 0.0, 0.5, 2.0, f64::INFINITY, f64::NAN];
+
+fn sorted_lists_over(alpha: &[f64], max_len: usize) -> Vec<Vec<f64>> {
+    // non-decreasing sequences over the alphabet of length 1..=max_len
     let mut out = vec![];
-    fn go(cur: &mut Vec<usize>, max_len: usize, out: &mut Vec<Vec<f64>>) {
+    fn go(alpha: &[f64], cur: &mut Vec<usize>, max_len: usize, out: &mut Vec<Vec<f64>>) {
         if !cur.is_empty() {
-            out.push(cur.iter().map(|i| ENDS[*i]).collect());
+            out.push(cur.iter().map(|i| alpha[*i]).collect());
         }
         if cur.len() == max_len {
             return;
         }
         let start = cur.last().cloned().unwrap_or(0);
-        for i in start..ENDS.len() {
+        for i in start..alpha.len() {
             cur.push(i);
-            go(cur, max_len, out);
+            go(alpha, cur, max_len, out);
             cur.pop();
         }
     }
-    go(&mut vec![], max_len, &mut out);
+    go(alpha, &mut vec![], max_len, &mut out);
     out
+}
+fn sorted_lists(max_len: usize) -> Vec<Vec<f64>> {
+    sorted_lists_over(&ENDS, max_len)
 }
 
 fn histories(max_len: usize) -> Vec<Vec<f64>> {
+    histories_over(&QUERIES, max_len)
+}
+fn histories_over(alpha: &[f64], max_len: usize) -> Vec<Vec<f64>> {
     let mut out: Vec<Vec<f64>> = vec![];
     let mut layer: Vec<Vec<f64>> = vec![vec![]];
     for _ in 0..max_len {
         let mut next = vec![];
         for h in &layer {
-            for q in QUERIES {
+            for q in alpha.iter().cloned() {
                 let mut h2 = h.clone();
                 h2.push(q);
                 next.push(h2);
@@ -59,6 +68,9 @@ pub fn scope(campaign: &str) -> &'static str {
         "exh-evaluator" => "all 55 end lists of length 1..3 over 5 values x all 7380 query histories of length 1..4 over 9 values (NaN, +-inf included)",
         "exh-evalv" => "all 55 end lists of length 1..3 over 5 values x all 7380 argument sequences of length 1..4 over 9 values",
         "exh-merge" => "all 125 x 125 pairs of non-decreasing end lists of length 1..4 over 5 values, both + and -",
+        "exh-evaluator-s" => "all 14 end lists of length 1..2 over {-1,0,1,2} x all 399 query histories of length 1..3 over {-inf,-2,0,0.5,2,+inf,NaN}",
+        "exh-evalv-s" => "all 14 end lists of length 1..2 over {-1,0,1,2} x all 399 argument sequences of length 1..3 over {-inf,-2,0,0.5,2,+inf,NaN}",
+        "exh-merge-s" => "all 34 x 34 pairs of non-decreasing end lists of length 1..3 over {-1,0,1,2}, both + and -",
         _ => "",
     }
 }
@@ -78,6 +90,32 @@ pub fn enumerate(campaign: &str, shard: usize, shards: usize) -> Vec<Case> {
             for e in sorted_lists(3) {
                 for q in QUERIES {
                     push(Case::new("pweval", "p0").set("pw", Val::Pw(reveal_p0(&e))).set("x", Val::F(q)).cls("exh"), &mut out);
+                }
+            }
+        }
+        "exh-evaluator-s" | "exh-evalv-s" => {
+            let hs = histories_over(&QUERIES_S, 3);
+            let cmd = if campaign == "exh-evaluator-s" { "evaluator" } else { "evalv" };
+            for e in sorted_lists_over(&ENDS_S, 2) {
+                for h in &hs {
+                    push(Case::new(cmd, "p0").set("pw", Val::Pw(reveal_p0(&e))).set("xs", Val::L(h.clone())).cls("exh"), &mut out);
+                }
+            }
+        }
+        "exh-merge-s" => {
+            let ls = sorted_lists_over(&ENDS_S, 3);
+            for f in &ls {
+                for g in &ls {
+                    for op in ["add", "sub"] {
+                        push(
+                            Case::new("merge", "q4")
+                                .set("op", Val::S(op.into()))
+                                .set("f", Val::Pw(reveal_q4(f, 1.0)))
+                                .set("g", Val::Pw(reveal_q4(g, 1000.0)))
+                                .cls("exh"),
+                            &mut out,
+                        );
+                    }
                 }
             }
         }
